@@ -20,7 +20,7 @@ func appendTextMarshaler(fi *finfo, buf []byte, rv reflect.Value, addr uintptr, 
 }
 
 func appendTextMarshalerAddr(fi *finfo, buf []byte, rv reflect.Value, addr uintptr, safe bool) ([]byte, any, appendStatus) {
-	v := rv.FieldByIndex(fi.index).Addr().Interface()
+	v := addrOf(rv.FieldByIndex(fi.index)).Interface()
 	buf = append(buf, fi.jkey...)
 	return appendTextMarshalerVal(buf, v, safe)
 }
